@@ -30,7 +30,7 @@ fn gen_plan(rng: &mut Rng) -> ReqPlan {
         _ => ReadPlan::ToEof { extra: 0 },
     };
     let finish = match rng.below(3) {
-        0 => Finish::Respond { status: 200, body_len: 5, declared: true, threshold: None, max_piece: 1000 },
+        0 => Finish::Respond { status: 200, body_len: *rng.pick(&[5usize, 0, 3000]), declared: rng.chance(1, 2), threshold: None, max_piece: 1000 },
         1 => Finish::Drop,
         _ => Finish::Writer { status: 200, body_len: 5, parts: vec![(1000, true)], early_drop_sleep_us: 0, vectored: false },
     };
@@ -116,6 +116,18 @@ pub fn gen_case(rng: &mut Rng, thorough: bool) -> Case {
             if rng.chance(1, 2) {
                 wire.extend_from_slice(b"\r\n\r\n");
             }
+        }
+        7 if rng.chance(1, 3) => {
+            // methods and versions that decide how the *answer* is framed (HEAD: no body is
+            // sent; HTTP/1.0 or TE: identity: a body of undeclared length has to be measured)
+            label = "answer-framing".to_string();
+            let m = *rng.pick(&["HEAD", "HEAD", "GET", "OPTIONS"]);
+            let first = match rng.below(3) {
+                0 => format!("{} /hf HTTP/1.0\r\nHost: h\r\nConnection: keep-alive\r\n\r\n", m),
+                1 => format!("{} /hf HTTP/1.1\r\nHost: h\r\nTE: identity\r\n\r\n", m),
+                _ => format!("{} /hf HTTP/1.1\r\nHost: h\r\nTE: identity;q=1, chunked;q=0\r\n\r\n", m),
+            };
+            wire = format!("{}{} /hf2 HTTP/1.1\r\nHost: h\r\nTE: chunked\r\n\r\n", first, m).into_bytes();
         }
         7 => {
             // valid-looking pipeline with odd framing headers
